@@ -8,6 +8,7 @@
 package main
 
 import (
+	"encoding/hex"
 	"bytes"
 	"context"
 	"encoding/json"
@@ -49,6 +50,20 @@ type sessionPlan struct {
 	Disp      bool `json:"disp"`
 	LoginLate int  `json:"login_delay_us"` // delay of the sshd line relative to the start
 	AuditLate int  `json:"audit_delay_us"`
+	// large events: UserLen bytes are added to the account name (the UserLogin and every UserAction of the session
+	// carry it), and the session's first command is an execve event whose argument list has about ArgBytes bytes
+	// (the UserAction carries the arguments): output lines beyond one page and up to 70 KiB
+	UserLen  int `json:"user_len,omitempty"`
+	ArgBytes int `json:"execve_arg_bytes,omitempty"`
+}
+
+func (p sessionPlan) user() string {
+	const pat = "ab0-_.Qz7"
+	u := fmt.Sprintf("user-%d", p.PID)
+	for len(u) < 5+p.UserLen && p.UserLen > 0 {
+		u += pat
+	}
+	return u
 }
 
 type scenario struct {
@@ -57,19 +72,51 @@ type scenario struct {
 	Debug    bool          `json:"debug_logging,omitempty"`
 }
 
-func auditLines(p sessionPlan, seq *int) []string {
+// auditLines: the session's records and how many audit events they make.
+func auditLines(p sessionPlan, seq *int) ([]string, int) {
 	ts := func() string {
 		*seq++
 		return fmt.Sprintf("audit(%d.%03d:%d)", 1700000000+*seq, *seq%1000, *seq)
 	}
 	lines := []string{fmt.Sprintf("type=LOGIN msg=%s: pid=%d uid=0 old-auid=4294967295 auid=1000 tty=(none) old-ses=4294967295 ses=%d res=1", ts(), p.PID, p.Ses)}
+	events := 1
+	if p.ArgBytes > 0 {
+		// one execve event as auditd writes it: records sharing a stamp, PROCTITLE last
+		stamp := ts()
+		var sb strings.Builder
+		fmt.Fprintf(&sb, "type=EXECVE msg=%s: argc=", stamp)
+		var args []string
+		for left, k := p.ArgBytes, 0; left > 0; k++ {
+			n := []int{7, 33, 900, 4100, 250}[k%5]
+			if n > left {
+				n = left
+			}
+			left -= n
+			args = append(args, strings.Repeat("a1-B_/=", n/7+1)[:n])
+		}
+		fmt.Fprintf(&sb, "%d a0=\"tool\"", len(args)+1)
+		for k, a := range args {
+			if k%4 == 3 {
+				fmt.Fprintf(&sb, " a%d=%s", k+1, strings.ToUpper(hex.EncodeToString([]byte(strings.ReplaceAll(a, "-", " ")))))
+			} else {
+				fmt.Fprintf(&sb, " a%d=\"%s\"", k+1, a)
+			}
+		}
+		lines = append(lines,
+			fmt.Sprintf("type=SYSCALL msg=%s: arch=c000003e syscall=59 success=yes exit=0 a0=55d0 a1=55d1 a2=55d2 a3=8 items=2 ppid=%d pid=%d auid=1000 uid=1000 gid=1000 euid=1000 suid=1000 fsuid=1000 egid=1000 sgid=1000 fsgid=1000 tty=pts0 ses=%d comm=\"tool\" exe=\"/usr/bin/tool\" key=(null)", stamp, p.PID, p.PID+1, p.Ses),
+			sb.String(),
+			fmt.Sprintf("type=PROCTITLE msg=%s: proctitle=746F6F6C", stamp))
+		events++
+	}
 	for i := 0; i < p.Cmds; i++ {
+		events++
 		lines = append(lines, fmt.Sprintf("type=USER_START msg=%s: pid=%d uid=0 auid=1000 ses=%d msg='op=PAM:session_open grantors=pam_unix acct=\"u%d\" exe=\"/usr/sbin/sshd\" hostname=10.0.0.1 addr=10.0.0.1 terminal=ssh res=success'", ts(), p.PID, p.Ses, i))
 	}
 	if p.Disp {
+		events++
 		lines = append(lines, fmt.Sprintf("type=CRED_DISP msg=%s: pid=%d uid=0 auid=1000 ses=%d msg='op=PAM:setcred grantors=pam_permit acct=\"u\" exe=\"/usr/sbin/sshd\" hostname=10.0.0.1 addr=10.0.0.1 terminal=ssh res=success'", ts(), p.PID, p.Ses))
 	}
-	return lines
+	return lines, events
 }
 
 type outcome struct {
@@ -78,6 +125,7 @@ type outcome struct {
 	Keys     []string `json:"keys"`
 	Expected int      `json:"expected_user_actions"`
 	Got      int      `json:"user_actions"`
+	Largest  int      `json:"largest_write"`
 }
 
 func runScenario(sc scenario) outcome {
@@ -104,9 +152,9 @@ func runScenario(sc scenario) outcome {
 	for _, p := range sc.Sessions {
 		p := p
 		seqMu.Lock()
-		lines := auditLines(p, &seq)
+		lines, nEvents := auditLines(p, &seq)
 		seqMu.Unlock()
-		expected += len(lines)
+		expected += nEvents
 		wg.Add(2)
 		go func() { // sshd pipe: one goroutine per line would not be faithful; but lines of different
 			// sshd processes arrive in some order on the single pipe: serialise through a mutex below
@@ -115,7 +163,7 @@ func runScenario(sc scenario) outcome {
 			sshdMu.Lock()
 			defer sshdMu.Unlock()
 			_ = sp.ProcessSshdLogEntry(ctx, sshd.SshdLogEntry{PID: fmt.Sprint(p.PID),
-				Message: fmt.Sprintf("Accepted password for user-%d from 10.0.0.%d port %d ssh2", p.PID, p.Ses%250, 1024+p.Ses)})
+				Message: fmt.Sprintf("Accepted password for %s from 10.0.0.%d port %d ssh2", p.user(), p.Ses%250, 1024+p.Ses)})
 		}()
 		go func() {
 			defer wg.Done()
@@ -162,6 +210,9 @@ func runScenario(sc scenario) outcome {
 		}
 	}
 	for i, c := range chunks {
+		if len(c) > out.Largest {
+			out.Largest = len(c)
+		}
 		if len(c) == 0 || c[len(c)-1] != '\n' || bytes.Count(c, []byte("\n")) != 1 {
 			add("output:not-one-line-per-write", fmt.Sprintf("write %d is not exactly one line: %q", i, truncate(c)))
 			continue
@@ -181,13 +232,17 @@ func runScenario(sc scenario) outcome {
 			continue
 		}
 		ident := ev.Subjects["loggedAs"] + "/" + ev.Subjects["pid"]
+		shown := ident
+		if len(shown) > 60 {
+			shown = fmt.Sprintf("%s...(%d bytes)/%s", shown[:40], len(ev.Subjects["loggedAs"]), ev.Subjects["pid"])
+		}
 		switch ev.Type {
 		case "UserLogin":
 			seenLogin[ident] = true
 		case "UserAction":
 			out.Got++
 			if !seenLogin[ident] {
-				add("output:action-before-login", fmt.Sprintf("write %d: UserAction with identity %s appears before (or without) the UserLogin of that login", i, ident))
+				add("output:action-before-login", fmt.Sprintf("write %d: UserAction with identity %s appears before (or without) the UserLogin of that login", i, shown))
 			}
 			k := ev.Metadata.AuditID + "@" + ev.LoggedAt
 			seenEvent[k]++
@@ -213,9 +268,18 @@ func truncate(b []byte) string {
 func genScenario(r *hutil.Rand) scenario {
 	n := 1 + r.Intn(8)
 	sc := scenario{Burst: r.Bool()}
+	big := r.Chance(1, 3)
 	for i := 0; i < n; i++ {
-		sc.Sessions = append(sc.Sessions, sessionPlan{PID: 2000 + 7*i + r.Intn(5), Ses: 10 + i, Cmds: r.Intn(6), Disp: r.Chance(2, 3),
-			LoginLate: r.Intn(3000), AuditLate: r.Intn(3000)})
+		p := sessionPlan{PID: 2000 + 7*i + r.Intn(5), Ses: 10 + i, Cmds: r.Intn(6), Disp: r.Chance(2, 3),
+			LoginLate: r.Intn(3000), AuditLate: r.Intn(3000)}
+		if big && r.Bool() {
+			p.UserLen = []int{100 + r.Intn(900), 3000 + r.Intn(1500), 4097 + r.Intn(6000)}[r.Intn(3)]
+			p.Cmds += r.Intn(12)
+		}
+		if big && r.Bool() {
+			p.ArgBytes = []int{3000 + r.Intn(1300), 4300 + r.Intn(5000), 9000 + r.Intn(11000), 20000 + r.Intn(50000)}[r.Intn(4)]
+		}
+		sc.Sessions = append(sc.Sessions, p)
 	}
 	return sc
 }
@@ -255,6 +319,7 @@ func main() {
 	r := hutil.NewRand(seed ^ 0xC10)
 	sum := hutil.NewSummary("C10", seed,
 		"1-8 SSH sessions; per session an accepted-password sshd line and its audit records (LOGIN, 0-5 USER_START, optional CRED_DISP) with random relative delays, in bursts or paced; "+
+			"in one scenario of three LARGE events: account names of 0.1-10 KiB (UserLogin and every UserAction of the session, more commands) and an execve event with an argument list of 3-70 KiB; "+
 			"the real sshd processor and the real Auditd.Read run concurrently on one event writer and an unbuffered logins channel; every Write call on the output is recorded; "+
 			"non-trivial = at least 2 sessions and at least one UserAction written; distinct by scenario")
 	for i := 0; i < *n; i++ {
@@ -264,6 +329,17 @@ func main() {
 		sum.Count(fmt.Sprint(sc), len(sc.Sessions) >= 2 && o.Got > 0)
 		sum.Dist(fmt.Sprintf("sessions_%d", len(sc.Sessions)))
 		sum.Dist(fmt.Sprintf("burst_%v", sc.Burst))
+		for _, p := range sc.Sessions {
+			if p.UserLen > 0 {
+				sum.Dist("session_with_long_account_name")
+			}
+			if p.ArgBytes > 0 {
+				sum.Dist("session_with_large_execve_event")
+			}
+		}
+		if o.Largest > 4096 {
+			sum.Dist("scenario_with_output_line_longer_than_4096")
+		}
 		if o.Got < o.Expected {
 			sum.Dist("user_actions_fewer_than_expected")
 		}
